@@ -53,7 +53,13 @@ pub fn replay_jit(a: &[String]) {
   cj.registers = Registers { af: saf, bc: sbc, de: sde, hl: shl, sp: ssp, ip: sip, cycles: scyc };
   bus::reset_log();
   let mem_ptr = cj.memory.as_ptr();
+  // as in jit::check_op: the block is translated under the counterexample's TRANSLATION-TIME memory (drawn next), then run
+  // under its run-time memory
+  let run_time_bus = bus::save();
+  bus::setup(&mut src);
   let address = cj.cache.translate_code_block(&cj.memory.rom, ip, mem_ptr);
+  bus::restore(run_time_bus);
+  bus::reset_log();
   let st_j = cj.cache.call(address, &mut cj.registers);
   let (ev_j, n_j) = bus::snapshot();
   bus::remove_hooks();
